@@ -17,6 +17,7 @@ RULE = (
     "; pass 6: the policies together with linear means, fixed+learned noise, linear / KISS-GP / RFF kernels and iterative solves ('mask' only)"
     "; pass 7: objective on another target tensor than the stored one; policy orders starting with 'ignore'; the deprecated GaussianLikelihoodWithMissingObs (terms and gradients of the observed entries alone, under any policy setting)"
     "; pass 8: the same target buffer refilled in place with another missing pattern, the same likelihood object called again"
+    "; pass 9: fixed-noise (with / without learned additional noise) likelihood terms under both policies"
 )
 REQUIRED = ["posterior_mean", "posterior_covar", "mll_unnormalised", "expected_log_prob", "log_marginal", "no_nan_leaves", "order_independent"]
 ASSUMPTIONS = [
